@@ -39,7 +39,7 @@ def addr(c):
 def cfg_text(k, props=True):
     s = ("SPECIFICATION Spec\nCONSTANTS\n  NConns = %(NConns)d\n  Timeout = %(Timeout)d\n  MaxAdv = %(MaxAdv)d\n"
          "  MaxFrag = %(MaxFrag)d\n  MaxReq = %(MaxReq)d\n  MaxSteps = %(MaxSteps)d\n" % k)
-    s += "  Bodies = %s\n" % ("TRUE" if k.get("Bodies") else "FALSE")
+    s += "  Bodies = %s\n  Porter = %s\n" % ("TRUE" if k.get("Bodies") else "FALSE", "TRUE" if k.get("Server") == "porter" else "FALSE")
     if props:
         s += ("INVARIANT TypeOK\nINVARIANT PersistentNeverIdleDropped\nINVARIANT HeadOfPersistentExempts\nINVARIANT ClosedForAReason\n"
               "PROPERTY NoEarlyDrop\nPROPERTY ActivityRestarts\n")
@@ -68,13 +68,29 @@ class IdleAdapter:
         kw = {}
         if kind == "tls":
             kw = {"scheme": u"https", "context": dn.FakeTlsContext()}
+        self.porter = k.get("Server") == "porter"
+        if k.get("Explicit", True):
+            kw["timeout"] = float(k["Timeout"])        # else: the timeout is left to the class default
         try:
-            self.valet = hserving.Valet(store=self.store, app=self.app, ha=LOCAL, timeout=float(k["Timeout"]), **kw)
-            if not self.valet.open():
-                raise AssertionError("the server did not open over the listening double")
+            if self.porter:
+                self.valet = hserving.Porter(store=self.store, ha=LOCAL, **kw)
+                if not self.valet.servant.reopen():
+                    raise AssertionError("the server did not open over the listening double")
+            else:
+                self.valet = hserving.Valet(store=self.store, app=self.app, ha=LOCAL, **kw)
+                if not self.valet.open():
+                    raise AssertionError("the server did not open over the listening double")
         except Exception:
             self.close()
             raise
+        # the reference for the idle timeout is the server object's own public .timeout ("timeout in seconds for dropping
+        # idle connections"; the class default when none is given), never what the servant or a connection carries:
+        # one quantum of the model is that timeout divided by the model's Timeout
+        self.quantum = 1.0
+        if not k.get("Explicit", True):
+            if self.valet.timeout != type(self.valet).Timeout:
+                raise AssertionError("no timeout given but .timeout is not the class default")
+            self.quantum = float(self.valet.timeout) / float(k["Timeout"])
         self.listen = self.fake.last
         if len(self.fake.created) != 1 or not self.listen.listening:
             raise AssertionError("expected exactly one listening socket double")
@@ -125,7 +141,7 @@ class IdleAdapter:
                 st[c] = "wait"
             else:
                 st[c] = "dropped without close"
-            if a in self.valet.reqs and a not in srv.ixes:
+            if a in (self.valet.stewards if self.porter else self.valet.reqs) and a not in srv.ixes:
                 st[c] = "requestant left behind"
         return {"st": st, "out": out, "cut": cut}
 
@@ -134,6 +150,11 @@ class IdleAdapter:
         response is in progress"""
         out = []
         for a, ix in self.valet.servant.ixes.items():
+            if self.porter:
+                stw = self.valet.stewards.get(a)
+                out.append((a, ix.timeout, max(-4.0 * ix.timeout, ix.timer.stop - self.store.stamp),
+                            stw is not None and bool(getattr(stw.requestant, "headed", False))))
+                continue
             rep = self.valet.reps.get(a)
             req = self.valet.reqs.get(a)
             out.append((a, ix.timeout, max(-4.0 * ix.timeout, ix.timer.stop - self.store.stamp), rep is not None and bool(rep.ended),
@@ -194,15 +215,21 @@ class IdleAdapter:
             self.socks[int(args[0])].push("recv", dn.CLOSED)
         elif name == "Advance":
             self.now += int(args[0])
-            self.store.stamp = float(self.now)
+            self.store.stamp = float(self.now) * self.quantum
         elif name == "ServiceConnects":
             v.serviceConnects()
         elif name == "ServiceReceives":
             v.servant.serviceReceivesAllIx()
-            v.serviceReqs()
+            if self.porter:
+                v.serviceStewards()
+            else:
+                v.serviceReqs()
         elif name == "ServiceReps":
             self._ys(args[0])
-            v.serviceReps()
+            if self.porter:
+                v.serviceStewards()
+            else:
+                v.serviceReps()
         elif name == "ServiceTransmits":
             self._tx(args[0])
             try:
@@ -249,7 +276,8 @@ def _walk(job):
     """one walk (graph file, kind, constants) in a worker process; returns plain data"""
     dot, kind, k = job
     g = graph.load_dot(dot)
-    w = conform("C28", g, lambda init: IdleAdapter(kind, init, k), env_key=env_key, match=match, where=kind + ":")
+    where = "%s%s%s:" % (kind, "/porter" if k.get("Server") == "porter" else "", "" if k.get("Explicit", True) else "/default-timeout")
+    w = conform("C28", g, lambda init: IdleAdapter(kind, init, k), env_key=env_key, match=match, where=where)
     whys = set()
     for u in w.states:
         whys |= _whys(g.states[u])
@@ -260,20 +288,30 @@ def _walk(job):
 def run_c28(ctx):
     ctx.rule = ("Idle.tla model checked for one and two connections (timeouts 0, 1, 2 quanta; request fragments, persistent and "
                 "non persistent requests, streamed responses with empty pieces, blocked / partial / full sends, peer close); "
-                "binding A: the complete state graph of every configuration walked together with a real http.Valet over "
-                "tcp.Server and over tcp.ServerTls with socket doubles (every environment / service step enabled at every "
+                "binding A: the complete state graph of every configuration walked together with a real http.Valet (and, for "
+                "persistent requests, http.Porter) over tcp.Server and over tcp.ServerTls built by the server object itself, the "
+                "timeout given explicitly or left to the class default (reference: the server object's own .timeout), with socket doubles (every environment / service step enabled at every "
                 "state the implementation reaches); distinct = (state, step) pairs executed")
     ctx.assume("TLC, vf/doubles_net.py and the projection functions are trusted")
     ctx.assume("ssl is not modelled: ServerTls / IncomerTls run over a FakeTlsContext whose handshake succeeds at once")
     ctx.assume("activity = bytes the server's recv / send calls actually moved; reading the end of the stream is no activity")
+    # "modes": how the server gets its timeout in the walks of this graph: given explicitly (one quantum = 1 s), or left
+    # to the class default (Valet.Timeout / Porter.Timeout; one quantum = server.timeout / Timeout)
+    main = {"NConns": 1, "Timeout": 2, "MaxAdv": 2, "MaxFrag": 1, "MaxReq": 2, "MaxSteps": 0, "Bodies": True}
+    small = {"NConns": 1, "Timeout": 2, "MaxAdv": 2, "MaxFrag": 1, "MaxReq": 1, "MaxSteps": 0}
+    porter = {"NConns": 1, "Timeout": 2, "MaxAdv": 2, "MaxFrag": 1, "MaxReq": 2, "MaxSteps": 0, "Server": "porter"}
     configs = ctx.pick(
-        [{"NConns": 1, "Timeout": 2, "MaxAdv": 2, "MaxFrag": 1, "MaxReq": 2, "MaxSteps": 0, "Bodies": True},
-         {"NConns": 1, "Timeout": 0, "MaxAdv": 1, "MaxFrag": 1, "MaxReq": 1, "MaxSteps": 0, "Bodies": True},
-         {"NConns": 2, "Timeout": 1, "MaxAdv": 1, "MaxFrag": 0, "MaxReq": 1, "MaxSteps": 6}],
-        [{"NConns": 1, "Timeout": 2, "MaxAdv": 2, "MaxFrag": 2, "MaxReq": 2, "MaxSteps": 0, "Bodies": True},
-         {"NConns": 1, "Timeout": 3, "MaxAdv": 2, "MaxFrag": 1, "MaxReq": 2, "MaxSteps": 0, "Bodies": True},
-         {"NConns": 1, "Timeout": 0, "MaxAdv": 1, "MaxFrag": 1, "MaxReq": 2, "MaxSteps": 0, "Bodies": True},
-         {"NConns": 2, "Timeout": 1, "MaxAdv": 1, "MaxFrag": 0, "MaxReq": 1, "MaxSteps": 9}])
+        [dict(main, modes=["explicit"]),
+         dict(small, modes=["default"]),
+         {"NConns": 1, "Timeout": 0, "MaxAdv": 1, "MaxFrag": 1, "MaxReq": 1, "MaxSteps": 0, "Bodies": True, "modes": ["explicit"]},
+         {"NConns": 2, "Timeout": 1, "MaxAdv": 1, "MaxFrag": 0, "MaxReq": 1, "MaxSteps": 6, "modes": ["explicit"]},
+         dict(porter, modes=["default", "explicit"])],
+        [dict(main, MaxFrag=2, modes=["explicit", "default"]),
+         dict(main, Timeout=3, modes=["explicit", "default"]),
+         {"NConns": 1, "Timeout": 0, "MaxAdv": 1, "MaxFrag": 1, "MaxReq": 2, "MaxSteps": 0, "Bodies": True, "modes": ["explicit"]},
+         {"NConns": 2, "Timeout": 1, "MaxAdv": 1, "MaxFrag": 0, "MaxReq": 1, "MaxSteps": 9, "modes": ["explicit"]},
+         dict(porter, modes=["default", "explicit"]),
+         dict(porter, Timeout=3, Bodies=True, modes=["default"])])
     d = env.subdir("c28")
 
     def model(i):
@@ -286,28 +324,31 @@ def run_c28(ctx):
     complete = True
     walks, graphs = [], {}
     for i, (k, res) in enumerate(zip(configs, results)):
-        name = "Idle/%dconn-timeout%d" % (k["NConns"], k["Timeout"])
+        name = "Idle/%s-%dconn-timeout%d" % (k.get("Server", "valet"), k["NConns"], k["Timeout"])
         ctx.add_model(res, name, k)
         if not res.ok:
             ctx.diverge(Divergence("C28", "model", res.error_name or res.error, name, "specification property violated in the model",
                                    steps=[{"action": a, "state": st} for a, st in res.trace]))
             continue
         tlc.require_coverage(res, [a for a in ACTIONS if (a != "Advance" or k["Timeout"] > 0) and
-                                   (a not in ("PeerSendHead", "PeerSendBody") or k.get("Bodies"))], name)
+                                   (a not in ("PeerSendHead", "PeerSendBody") or k.get("Bodies")) and
+                                   (a != "PeerClose" or k.get("Server") != "porter")], name)
         g = graph.load_dot("%s/g%d.dot" % (d, i))
         whys = set()
         for st in g.states.values():
             whys |= _whys(st)
-        need = {"done", "cut"} | ({"idle"} if k["Timeout"] > 0 else set())
+        need = (set() if k.get("Server") == "porter" else {"done", "cut"}) | ({"idle"} if k["Timeout"] > 0 else set())
         if not need <= whys:
             raise tlc.TlcError("vacuous model run (%s): closes for %s never reached" % (name, sorted(need - whys)))
-        walks.extend((i, kind) for kind in KINDS)
+        walks.extend((i, kind, mode) for kind in KINDS for mode in k["modes"])
         graphs[i] = (g, name, need)
     with ProcessPoolExecutor(max_workers=max(1, min(len(walks), env.NCPU))) as ex:
-        done = list(ex.map(_walk, [("%s/g%d.dot" % (d, i), kind, configs[i]) for (i, kind) in walks]))
-    for (i, kind), w in zip(walks, done):
+        done = list(ex.map(_walk, [("%s/g%d.dot" % (d, i), kind, dict(configs[i], Explicit=(mode == "explicit")))
+                                   for (i, kind, mode) in walks]))
+    for (i, kind, mode), w in zip(walks, done):
         g, name, need = graphs[i]
-        k = configs[i]
+        k = dict(configs[i], mode=mode)
+        kind = "%s/%s-timeout" % (kind, mode)
         for dv in w["divergences"]:
             dv.extra = dict(dv.extra or {}, config=k, kind=kind)
         ctx.diverge(w["divergences"])
